@@ -19,10 +19,12 @@ import (
 	"io"
 	"os"
 	"runtime/debug"
+	"sort"
 	"strconv"
 	"strings"
 	"sync"
 	"syscall"
+	"time"
 	"unsafe"
 
 	"github.com/sandover/ergo/internal/ergo"
@@ -38,14 +40,16 @@ type verifReq struct {
 	RandHex  []string `json:"rand_hex"`  // explicit answers for the first reads
 	PtyCols  int      `json:"pty_cols"`  // >0 => stdout is a pty slave of that width
 	PtyRows  int      `json:"pty_rows"`
+	Observe  bool     `json:"observe"` // run list --all/--epics/--ready + show of every id, one round trip
 }
 
 type verifRes struct {
-	Out   []byte `json:"out"`
-	Err   []byte `json:"err"`
-	Exit  int    `json:"exit"`
-	Panic bool   `json:"panic"`
-	Reads int    `json:"rand_reads"`
+	Out    []byte `json:"out"`
+	Err    []byte `json:"err"`
+	Exit   int    `json:"exit"`
+	Panic  bool   `json:"panic"`
+	Reads  int    `json:"rand_reads"`
+	Micros int64  `json:"micros"`
 }
 
 type scriptedRand struct {
@@ -165,6 +169,16 @@ func verifOpenPty(cols, rows int) (master, slave *os.File, err error) {
 	return m, s, nil
 }
 
+func verifMemfd(name string) *os.File {
+	b := append([]byte(name), 0)
+	fd, _, e := syscall.Syscall(319 /* memfd_create */, uintptr(unsafe.Pointer(&b[0])), 0, 0)
+	if e != 0 {
+		fmt.Fprintln(os.Stderr, "verif server: memfd_create:", e)
+		os.Exit(98)
+	}
+	return os.NewFile(fd, name)
+}
+
 func verifServe() {
 	in := bufio.NewReaderSize(os.NewFile(3, "verif-req"), 1<<20)
 	out := bufio.NewWriter(os.NewFile(4, "verif-res"))
@@ -181,7 +195,18 @@ func verifServe() {
 			fmt.Fprintln(realStderr, "verif server: bad request:", err)
 			os.Exit(98)
 		}
+		if req.Observe {
+			batch := verifObserve(req)
+			os.Stdin, os.Stdout, os.Stderr = realStdin, realStdout, realStderr
+			if err := enc.Encode(batch); err != nil {
+				os.Exit(98)
+			}
+			out.Flush()
+			continue
+		}
+		t0 := time.Now()
 		res := verifRunOne(req)
+		res.Micros = time.Since(t0).Microseconds()
 		os.Stdin, os.Stdout, os.Stderr = realStdin, realStdout, realStderr
 		rand.Reader = realRand
 		if err := enc.Encode(res); err != nil {
@@ -191,13 +216,55 @@ func verifServe() {
 	}
 }
 
+type verifObsRes struct {
+	IDs []string   `json:"ids"`
+	Res []verifRes `json:"res"` // all, epics, ready, then one show per id
+}
+
+// verifObserve runs the read commands of an observation through the same cobra path, in one round trip.
+func verifObserve(req verifReq) verifObsRes {
+	var o verifObsRes
+	run := func(args ...string) verifRes {
+		r := verifRunOne(verifReq{Cwd: req.Cwd, Args: args, RandBase: -1})
+		o.Res = append(o.Res, r)
+		return r
+	}
+	seen := map[string]bool{}
+	for _, flag := range []string{"--all", "--epics", "--ready"} {
+		r := run("--json", "list", flag)
+		if r.Exit != 0 {
+			return o
+		}
+		var items []struct {
+			ID string `json:"id"`
+		}
+		if err := json.Unmarshal(r.Out, &items); err != nil {
+			return o
+		}
+		if flag != "--ready" {
+			for _, it := range items {
+				if !seen[it.ID] {
+					seen[it.ID] = true
+					o.IDs = append(o.IDs, it.ID)
+				}
+			}
+		}
+	}
+	sort.Strings(o.IDs)
+	for _, id := range o.IDs {
+		run("--json", "show", id)
+	}
+	return o
+}
+
 func verifRunOne(req verifReq) (res verifRes) {
 	if err := os.Chdir(req.Cwd); err != nil {
 		return verifRes{Err: []byte("verif server: chdir: " + err.Error()), Exit: 99}
 	}
 	os.Setenv("PWD", req.Cwd)
 
-	// stdin
+	// stdin: nil => /dev/null (char device, "not piped"); else a regular file (same as a pipe for ergo:
+	// both are "not a char device" and are read to EOF)
 	var stdinR *os.File
 	var wg sync.WaitGroup
 	if req.Stdin == nil {
@@ -207,21 +274,15 @@ func verifRunOne(req verifReq) (res verifRes) {
 		}
 		stdinR = f
 	} else {
-		r, w, err := os.Pipe()
-		if err != nil {
+		f := verifMemfd("stdin")
+		if _, err := f.Write(*req.Stdin); err != nil {
 			return verifRes{Err: []byte("verif server: " + err.Error()), Exit: 99}
 		}
-		stdinR = r
-		data := *req.Stdin
-		wg.Add(1)
-		go func() {
-			defer wg.Done()
-			_, _ = w.Write(data)
-			w.Close()
-		}()
+		f.Seek(0, io.SeekStart)
+		stdinR = f
 	}
-	// stdout / stderr
-	var outBuf, errBuf bytes.Buffer
+	// stdout / stderr: regular (memfd) files unless a pty is requested
+	var outBuf bytes.Buffer
 	var outW, errW *os.File
 	var ptyMaster *os.File
 	if req.PtyCols > 0 {
@@ -240,23 +301,9 @@ func verifRunOne(req verifReq) (res verifRes) {
 			_, _ = io.Copy(&outBuf, m) // ends with EIO when the slave closes
 		}()
 	} else {
-		r, w, err := os.Pipe()
-		if err != nil {
-			return verifRes{Err: []byte("verif server: " + err.Error()), Exit: 99}
-		}
-		outW = w
-		wg.Add(1)
-		go func() { defer wg.Done(); _, _ = io.Copy(&outBuf, r); r.Close() }()
+		outW = verifMemfd("stdout")
 	}
-	{
-		r, w, err := os.Pipe()
-		if err != nil {
-			return verifRes{Err: []byte("verif server: " + err.Error()), Exit: 99}
-		}
-		errW = w
-		wg.Add(1)
-		go func() { defer wg.Done(); _, _ = io.Copy(&errBuf, r); r.Close() }()
-	}
+	errW = verifMemfd("stderr")
 	os.Stdin, os.Stdout, os.Stderr = stdinR, outW, errW
 
 	var sr *scriptedRand
@@ -286,14 +333,29 @@ func verifRunOne(req verifReq) (res verifRes) {
 		}
 	}()
 
+	readBack := func(f *os.File) []byte {
+		st, err := f.Stat()
+		if err != nil || st.Size() == 0 {
+			return nil
+		}
+		b := make([]byte, st.Size())
+		n, _ := f.ReadAt(b, 0)
+		return b[:n]
+	}
+	errBytes := readBack(errW)
+	var outBytes []byte
+	if ptyMaster == nil {
+		outBytes = readBack(outW)
+	}
 	outW.Close()
 	errW.Close()
 	stdinR.Close()
 	wg.Wait()
 	if ptyMaster != nil {
 		ptyMaster.Close()
+		outBytes = outBuf.Bytes()
 	}
-	res = verifRes{Out: outBuf.Bytes(), Err: errBuf.Bytes(), Exit: exit, Panic: panicked}
+	res = verifRes{Out: outBytes, Err: errBytes, Exit: exit, Panic: panicked}
 	if sr != nil {
 		res.Reads = sr.reads
 	}
